@@ -16,12 +16,12 @@ only of the current or an inactive channel; a `Channel` object is destroyed only
 outside the dispatch; one channel per descriptor) are the model's guards `removeOk`/`recreateOk`: a
 request outside them is rejected (`Ev.reject`) and changes nothing, so the histories are unconstrained.
 
-Finding F21 (known_findings/C09.json): the first update of an unregistered channel that carries no
-interest registers the descriptor with an empty mask.  The ghost flag `State.blind` records that this
-happened; the `_partial` theorems assume it did not; `refine_full_false`, `refine_epoll_false`,
-`no_abort_poll_false`, `index_inv_false`, `same_callbacks_false`, `idle_blocks_false` are the negation
-witnesses of the full statements (`dispatch_reported_poll_partial` is not known to fail with F21; its
-proof uses the slot invariant).
+Finding F21 (the first update of an unregistered channel that carries no interest registered the
+descriptor with an empty mask: `blind-watch`, `blind-spin`, `blind-abort`) is repaired in /repo
+(`PollPoller::updateChannel` pushes such an entry in its ignored form `-fd-1`; `EPollPoller::updateChannel`
+records the channel in `channels_` with slot state *deleted* and makes no `EPOLL_CTL_ADD`; both sites are
+extracted: `pollNewIgnores`, `pollNewIgnoreFd`, `epNewSkips`, `epIndexAfterNewSkip`).  The theorems below are
+therefore stated at full strength for every history; the former witnesses are `example`s that now pass.
 -/
 namespace MuduoVerif.C09
 open MuduoVerif.Poller MuduoVerif.Gen.Poller
@@ -36,45 +36,28 @@ def refine_full : Prop :=
   ∀ (be : Backend) (ins : List In) (fd : Int) (mask : Nat),
     watched (reach be ins) fd mask ↔ specWatched (reach be ins) fd mask
 
-/-- F21: `disableAll()` on a fresh channel makes either back-end watch the descriptor with an empty mask -/
-theorem refine_full_false : ¬ refine_full := by
-  intro h
-  have h1 := (h .poll [.op 2 .disableAll] 2 0).1 (by decide)
-  obtain ⟨_, _, _, _, h0⟩ := h1
-  exact h0 rfl
-
-theorem refine_epoll_false :
-    ¬ ∀ (ins : List In) (fd : Int) (mask : Nat),
-      watched (reach .epoll ins) fd mask ↔ specWatched (reach .epoll ins) fd mask := by
-  intro h
-  have h1 := (h [.op 2 .disableAll] 2 0).1 (by decide)
-  obtain ⟨_, _, _, _, h0⟩ := h1
-  exact h0 rfl
-
-/-- **refine_poll**: for every history in which no channel's first update was without interest, the
-non-negative entries of `pollfds_` are exactly the specification map -/
-theorem refine_poll_partial (ins : List In) (hb : (reach .poll ins).blind = false) (fd : Int) (mask : Nat) :
+/-- **refine_poll**: after every history the non-negative entries of `pollfds_` are exactly the
+specification map -/
+theorem refine_poll (ins : List In) (fd : Int) (mask : Nat) :
     watched (reach .poll ins) fd mask ↔ specWatched (reach .poll ins) fd mask :=
-  pollStruct_refines (pollGood_run ins).1 ((pollGood_run ins).2 hb).2 fd mask
+  pollStruct_refines (pollGood_run ins).1 (pollGood_run ins).2.2 fd mask
 
-/-- **refine_epoll**: for every such history the kernel's epoll interest list, as maintained by the
+/-- **refine_epoll**: after every history the kernel's epoll interest list, as maintained by the
 `EPOLL_CTL_ADD/MOD/DEL` calls, is exactly the specification map -/
-theorem refine_epoll_partial (ins : List In) (hb : (reach .epoll ins).blind = false) (fd : Int) (mask : Nat) :
+theorem refine_epoll (ins : List In) (fd : Int) (mask : Nat) :
     watched (reach .epoll ins) fd mask ↔ specWatched (reach .epoll ins) fd mask :=
-  epStruct_refines (epGood_run ins).1 (epGood_run ins).2 hb fd mask
+  epStruct_refines (epGood_run ins).1 (epGood_run ins).2 fd mask
 
-/-- the hypothesis `blind = false` of the `_partial` theorems can be read off the trace: the ghost flag is
-set only if the trace shows an `enable*/disable*` that left a channel which was unregistered (according
-to the operations before it) without interest — or the process died executing it -/
-theorem blind_visible (be : Backend) (ins : List In) (hb : (reach be ins).blind = true) :
-    (reach be ins).dead = true ∨
-      ∃ pre c k i post, (reach be ins).out = pre ++ .op c k 0 i :: post ∧ k.isUpdate = true ∧
-        histAdded c pre = false :=
-  (blindInv_run be ins).vis hb
+/-- the full-strength statement holds -/
+theorem refine_full_holds : refine_full := by
+  intro be ins fd mask
+  cases be
+  · exact refine_epoll ins fd mask
+  · exact refine_poll ins fd mask
 
 /-! ## no failure -/
 
-/-- **no_ctl_failure**: after every history, under either back-end, with or without F21, whatever the
+/-- **no_ctl_failure**: after every history, under either back-end, whatever the
 kernel reports: no `epoll_ctl` failed (`EEXIST`/`ENOENT`), nothing was logged by `LOG_SYSERR`/`LOG_SYSFATAL` -/
 theorem no_ctl_failure (be : Backend) (ins : List In) :
     ∀ e ∈ (reach be ins).out, e ≠ .syserr ∧ e ≠ .fatal ∧
@@ -87,18 +70,13 @@ theorem no_ctl_failure (be : Backend) (ins : List In) :
   · rintro op c mask res rfl
     cases res <;> simp_all [Ev.isCtlFailure]
 
-/-- on a poll loop no assertion fails and the process stays alive, for every history without F21 -/
-theorem no_abort_poll_partial (ins : List In) (hb : (reach .poll ins).blind = false) :
+/-- on a poll loop no assertion fails and the process stays alive, for every history and whatever the
+kernel reports (`PollPoller` looks only at its own array) -/
+theorem no_abort_poll (ins : List In) :
     (reach .poll ins).dead = false ∧ ∀ e ∈ (reach .poll ins).out, e.isFatal = false :=
-  ⟨((pollGood_run ins).2 hb).1, aliveClean_run .poll ins ((pollGood_run ins).2 hb).1⟩
+  ⟨(pollGood_run ins).2.1, aliveClean_run .poll ins (pollGood_run ins).2.1⟩
 
-/-- F21 (blind-abort): removing a channel that was registered without interest fails
-`assert(pfd.fd == -channel->fd()-1 …)` in `PollPoller::removeChannel` -/
-theorem no_abort_poll_false : ¬ ∀ ins : List In, (reach .poll ins).dead = false := by
-  intro h
-  exact absurd (h [.op 2 .disableAll, .op 2 .remove]) (by decide)
-
-/-- on an epoll loop no assertion fails and the process stays alive for every history — F21 included —
+/-- on an epoll loop no assertion fails and the process stays alive for every history
 provided the kernel behaves (`epEnvOk`: `epoll_wait` returns what it says, no more than the array holds,
 only descriptors of the interest list) -/
 theorem no_abort_epoll (ins : List In) (henv : Along epEnvOk (init .epoll) ins) :
@@ -112,7 +90,7 @@ theorem no_abort_epoll (ins : List In) (henv : Along epEnvOk (init .epoll) ins) 
 its descriptor to it; indices of registered channels are distinct; every entry is owned; an
 unregistered channel has no slot.  Holds after every history, i.e. for every removal order
 (swap-with-last) and every re-registration -/
-theorem index_inv_partial (ins : List In) (hb : (reach .poll ins).blind = false) :
+theorem index_inv (ins : List In) :
     let s := reach .poll ins
     (∀ c, (s.chans c).added = true →
       0 ≤ (s.chans c).index ∧ s.cmap (fdOf c) = some c ∧
@@ -121,28 +99,17 @@ theorem index_inv_partial (ins : List In) (hb : (reach .poll ins).blind = false)
     (∀ c d, (s.chans c).added = true → (s.chans d).added = true → (s.chans c).index = (s.chans d).index → c = d) ∧
     (∀ i, i < s.pollfds.length → ∃ c, (s.chans c).added = true ∧ (s.chans c).index = (i : Int)) ∧
     (∀ c, (s.chans c).added = false → (s.chans c).index < 0 ∧ s.cmap (fdOf c) = none) := by
-  have h := ((pollGood_run ins).2 hb).2
+  have h := (pollGood_run ins).2.2
   exact ⟨h.reg, fun c d hc hd hi => h.idx_inj hc hd hi, h.cover, fun c hc => ⟨(h.unreg c hc).1, (h.unreg c hc).2.2⟩⟩
 
-/-- F21: a channel registered without interest sits in `pollfds_` with its descriptor *not* negated -/
-theorem index_inv_false :
-    ¬ ∀ (ins : List In) (c : Nat), ((reach .poll ins).chans c).added = true →
-      (reach .poll ins).pollfds[((reach .poll ins).chans c).index.toNat]? =
-        some (if ((reach .poll ins).chans c).events = 0 then pollIgnoreFd (fdOf c) else fdOf c,
-          ((reach .poll ins).chans c).events) := by
-  intro h
-  exact absurd (h [.op 2 .disableAll] 2 (by decide)) (by decide)
-
-/-- the slot-state machine of `EPollPoller` (every history, F21 included): a registered channel is in
-`channels_` and either *added* with its interest word in the kernel, or *deleted*, without interest and
-unknown to the kernel; an unregistered channel is *new*, not in `channels_`, unknown to the kernel.
-An *added* channel without interest exists only after F21 -/
+/-- the slot-state machine of `EPollPoller` (every history): a registered channel is in `channels_` and
+either *added*, with interest, its interest word in the kernel — or *deleted*, without interest and unknown
+to the kernel; an unregistered channel is *new*, not in `channels_`, unknown to the kernel -/
 theorem slot_inv_epoll (ins : List In) :
     let s := reach .epoll ins
     ∀ c, if (s.chans c).added = true then
         s.cmap (fdOf c) = some c ∧
-          (((s.chans c).index = kAdded ∧ s.kernel (fdOf c) = some (s.chans c).events ∧
-              ((s.chans c).events = 0 → s.blind = true)) ∨
+          (((s.chans c).index = kAdded ∧ s.kernel (fdOf c) = some (s.chans c).events ∧ (s.chans c).events ≠ 0) ∨
            ((s.chans c).index = kDeleted ∧ (s.chans c).events = 0 ∧ s.kernel (fdOf c) = none))
       else (s.chans c).index = kNew ∧ (s.chans c).events = 0 ∧ s.cmap (fdOf c) = none ∧
         s.kernel (fdOf c) = none :=
@@ -163,12 +130,12 @@ theorem dispatch_sound (be : Backend) (ins : List In) {pre post : List Ev} {c : 
 
 /-- the callback's `revents` are the kernel's answer of *this* iteration: in every iteration from a
 reachable state the loop calls only channels of the active list the poller returned, each with
-`revents = lookupRev ready c`, the value reported for it (poll loop; histories without F21) -/
-theorem dispatch_reported_poll_partial (ins : List In) (hb : (reach .poll ins).blind = false) (ready nret) :
+`revents = lookupRev ready c`, the value reported for it (poll loop) -/
+theorem dispatch_reported_poll (ins : List In) (ready nret) :
     ∃ l, (iter (reach .poll ins) ready nret).out = (pollerPoll (reach .poll ins) ready nret).1.out ++ l ∧
       ∀ c k rev ev, Ev.cb c k rev ev ∈ l →
         c ∈ (pollerPoll (reach .poll ins) ready nret).2 ∧ rev = lookupRev ready c := by
-  obtain ⟨hd, hs⟩ := (pollGood_run ins).2 hb
+  obtain ⟨hd, hs⟩ := (pollGood_run ins).2
   obtain ⟨l, h1, h2⟩ := iter_reported (reach .poll ins) hd ready nret
   refine ⟨l, h1, fun c k rev ev hm => ?_⟩
   obtain ⟨hc, hr⟩ := h2 c k rev ev hm
@@ -210,30 +177,21 @@ theorem interest_registered (be : Backend) (ins : List In) (c : Nat) :
 /-- **same_callbacks**: the same history — operations between polls, operations scripted inside
 callbacks, iterations with the same kernel report — run on a poll loop and on an epoll loop produces
 the same observable trace (`absOut`: executed and rejected operations with the resulting interest word,
-and callbacks `(channel, kind, revents, interest)`, *in order*), provided no channel is registered
-without interest (F21), the kernel behaves, reports each descriptor once, and in every iteration both
+and callbacks `(channel, kind, revents, interest)`, *in order*), provided the kernel behaves, reports
+each descriptor once, and in every iteration both
 pollers hand the loop the same active list (`simEnvOk`: `epoll_wait` lists the descriptors in the order
 `PollPoller` scans them).  The final states agree on every channel's interest, `revents_` and registration -/
-theorem same_callbacks_partial (ins : List In) (henv : Along2 simEnvOk (init .poll) (init .epoll) ins)
-    (hb : (reach .poll ins).blind = false) :
+theorem same_callbacks (ins : List In) (henv : Along2 simEnvOk (init .poll) (init .epoll) ins) :
     absOut (reach .poll ins).out = absOut (reach .epoll ins).out ∧ AbsEq (reach .poll ins) (reach .epoll ins) :=
-  let h := sim_run ins _ _ sim_init henv hb
+  let h := sim_run ins _ _ sim_init henv
   ⟨h.out, h.abs⟩
 
-/-- F21: after a blind registration `remove()` kills the poll loop (blind-abort) while the epoll loop goes
-on — without the hypothesis the traces differ -/
-theorem same_callbacks_false :
-    ¬ ∀ ins : List In, Along2 simEnvOk (init .poll) (init .epoll) ins →
-      absOut (reach .poll ins).out = absOut (reach .epoll ins).out := by
-  intro h
-  exact absurd (h [.op 2 .disableAll, .op 2 .remove, .op 2 .enableR] (by decide)) (by decide)
-
 /-- **same_watch**: … and then both back-ends ask the kernel to watch the same descriptor → mask map -/
-theorem same_watch_partial (ins : List In) (henv : Along2 simEnvOk (init .poll) (init .epoll) ins)
-    (hb : (reach .poll ins).blind = false) (fd : Int) (mask : Nat) :
+theorem same_watch (ins : List In) (henv : Along2 simEnvOk (init .poll) (init .epoll) ins)
+    (fd : Int) (mask : Nat) :
     watched (reach .poll ins) fd mask ↔ watched (reach .epoll ins) fd mask := by
-  have h := (same_callbacks_partial ins henv hb).2
-  rw [refine_poll_partial ins hb, refine_epoll_partial ins (h.blind ▸ hb)]
+  have h := (same_callbacks ins henv).2
+  rw [refine_poll ins, refine_epoll ins]
   unfold specWatched
   constructor
   · rintro ⟨c, h1, h2, h3, h4⟩
@@ -246,22 +204,21 @@ order in which the kernel lists the ready descriptors does not matter: if in eve
 return the same channels (`permEnvOk`: a permutation), both loops execute the same operations with the
 same results, run the same multiset of callbacks `(channel, kind, revents, interest)`, and agree on every
 channel's interest, `revents_` and registration afterwards -/
-theorem same_callbacks_unordered_partial (ins : List In) (henv : Along2 permEnvOk (init .poll) (init .epoll) ins)
-    (hb : (reach .poll ins).blind = false) :
+theorem same_callbacks_unordered (ins : List In) (henv : Along2 permEnvOk (init .poll) (init .epoll) ins) :
     opsOut (reach .poll ins).out = opsOut (reach .epoll ins).out ∧
     (cbOut (reach .poll ins).out).Perm (cbOut (reach .epoll ins).out) ∧
     ∀ c, ((reach .poll ins).chans c).events = ((reach .epoll ins).chans c).events ∧
       ((reach .poll ins).chans c).revents = ((reach .epoll ins).chans c).revents ∧
       ((reach .poll ins).chans c).added = ((reach .epoll ins).chans c).added :=
-  let h := wsim_run ins _ _ wsim_init henv hb
+  let h := wsim_run ins _ _ wsim_init henv
   ⟨h.ops, h.cbs, fun c => ⟨h.ev c, h.rev c, h.added c⟩⟩
 
 /-- … and ask the kernel to watch the same map -/
-theorem same_watch_unordered_partial (ins : List In) (henv : Along2 permEnvOk (init .poll) (init .epoll) ins)
-    (hb : (reach .poll ins).blind = false) (fd : Int) (mask : Nat) :
+theorem same_watch_unordered (ins : List In) (henv : Along2 permEnvOk (init .poll) (init .epoll) ins)
+    (fd : Int) (mask : Nat) :
     watched (reach .poll ins) fd mask ↔ watched (reach .epoll ins) fd mask := by
-  have h := wsim_run ins _ _ wsim_init henv hb
-  rw [refine_poll_partial ins hb, refine_epoll_partial ins (h.blind ▸ hb)]
+  have h := wsim_run ins _ _ wsim_init henv
+  rw [refine_poll ins, refine_epoll ins]
   unfold specWatched
   constructor
   · rintro ⟨c, h1, h2, h3, h4⟩
@@ -299,28 +256,17 @@ theorem idle_blocks (be : Backend) (ins : List In) :
   ⟨fun sz t h => ⟨waitInv_run be ins sz t h, (waitInv_run be ins sz t h) ▸ poll_timeout_pos⟩,
     fun hd => iter_idle _ hd⟩
 
-/-- … and the kernel is given no reason to report a channel nobody is interested in: without F21
-every watched descriptor has a non-empty mask, the interest of a registered channel -/
-theorem idle_blocks_partial (be : Backend) (ins : List In) (hb : (reach be ins).blind = false)
-    (fd : Int) (mask : Nat) (hw : watched (reach be ins) fd mask) :
+/-- … and the kernel is given no reason to report a channel nobody is interested in: after every
+history every watched descriptor has a non-empty mask, the interest of a registered channel -/
+theorem idle_blocks_watch (be : Backend) (ins : List In) (fd : Int) (mask : Nat)
+    (hw : watched (reach be ins) fd mask) :
     mask ≠ 0 ∧ ∃ c, fd = fdOf c ∧ ((reach be ins).chans c).added = true ∧ ((reach be ins).chans c).events = mask := by
-  have h : specWatched (reach be ins) fd mask := by
-    cases be
-    · exact (refine_epoll_partial ins hb fd mask).1 hw
-    · exact (refine_poll_partial ins hb fd mask).1 hw
-  obtain ⟨c, h1, h2, h3, h4⟩ := h
+  obtain ⟨c, h1, h2, h3, h4⟩ := (refine_full_holds be ins fd mask).1 hw
   exact ⟨h4, c, h1, h2, h3⟩
-
-/-- F21 (blind-spin): with a blind registration the kernel watches a descriptor with an empty mask — it
-reports hang-up/error for it in every iteration, no callback runs, the loop cannot block -/
-theorem idle_blocks_false :
-    ¬ ∀ (be : Backend) (ins : List In) (fd : Int) (mask : Nat), watched (reach be ins) fd mask → mask ≠ 0 := by
-  intro h
-  exact h .epoll [.op 2 .disableAll] 2 0 (by decide) rfl
 
 /-! ## the hypotheses are satisfiable, the conclusions not vacuous -/
 
-example : Along2 simEnvOk (init .poll) (init .epoll) sampleHistory ∧ (reach .poll sampleHistory).blind = false ∧
+example : Along2 simEnvOk (init .poll) (init .epoll) sampleHistory ∧
     Along epEnvOk (init .epoll) sampleHistory := by decide
 
 /-- what both back-ends did on `sampleHistory` (two user channels, an operation inside a callback that
@@ -333,10 +279,19 @@ example : absOut (reach .poll sampleHistory).out =
 
 /-- operations between polls only; the kernel reports in an order different from `pollfds_` -/
 example : Along2 permEnvOk (init .poll) (init .epoll) sampleUnordered ∧
-    (reach .poll sampleUnordered).blind = false ∧
     cbOut (reach .poll sampleUnordered).out =
       [.cb 2 .read 1 3, .cb 3 .write 4 4, .cb 4 .read 1 3, .cb 2 .read 1 3, .cb 4 .close 16 3] ∧
     cbOut (reach .epoll sampleUnordered).out =
       [.cb 4 .read 1 3, .cb 2 .read 1 3, .cb 3 .write 4 4, .cb 4 .close 16 3, .cb 2 .read 1 3] := by decide
+
+/-- the former F21 witnesses (corpus/C09/F21-…): a first update without interest is not handed to the
+kernel, `remove()` after it works under both back-ends, a later `enableReading()` registers normally -/
+example :
+    (∀ be ∈ [Backend.epoll, .poll], ¬ watched (reach be [.op 2 .disableAll]) 2 0) ∧
+    (∀ be ∈ [Backend.epoll, .poll], (reach be [.op 2 .disableAll, .op 2 .remove]).dead = false ∧
+      absOut (reach be [.op 2 .disableAll, .op 2 .remove]).out = [.op 2 .disableAll 0 0, .op 2 .remove 0 0]) ∧
+    (∀ be ∈ [Backend.epoll, .poll], watched (reach be [.op 2 .disableAll, .op 2 .enableR]) 2 3) ∧
+    Along2 simEnvOk (init .poll) (init .epoll) [.op 2 .disableAll, .iter [] 0, .op 2 .remove, .op 2 .enableR,
+      .iter [(2, 1)] 1] := by decide
 
 end MuduoVerif.C09
